@@ -8,9 +8,9 @@ CONSTANTS
   Weights <- W2
   TdFlags = {FALSE}
   InVals <- V2
-  OrderKinds = {"IBOH", "IBHO"}
-  ActSchemes <- SchemesMixed
-  LinkCaps = {4}
+  OrderKinds = {"IBHO"}
+  ActSchemes <- SchemesQuick
+  LinkCaps = {3}
   SealAtCap = FALSE
   Canonical = TRUE
   FwdKs = {1, 2}
